@@ -18,17 +18,33 @@ def main():
     mod = importlib.import_module(f"vcheck.props.{prop.lower()}")
     if a.replay:
         sys.exit(mod.replay(a.replay))
-    rep = Report(prop, a.tier, seed)
-    ses = Session(rep)
-    try:
-        mod.run(ses, rep)
-        if a.tier == "thorough":
-            ses.cross_check_cvc5()
-    except Inconclusive as e:
-        rep.add("engine", "inconclusive", str(e)[:1500], nontrivial=False)
-    except Exception as e:       # an engine bug is never a pass and never an alarm
-        traceback.print_exc()
-        rep.add("engine", "inconclusive", f"internal error: {type(e).__name__}: {e}"[:1500], nontrivial=False)
+    def attempt():
+        rep = Report(prop, a.tier, seed)
+        ses = Session(rep)
+        try:
+            mod.run(ses, rep)
+            if a.tier == "thorough":
+                ses.cross_check_cvc5()
+        except Inconclusive as e:
+            rep.add("engine", "inconclusive", str(e)[:1500], nontrivial=False)
+        except Exception as e:       # an engine bug is never a pass and never an alarm
+            traceback.print_exc()
+            rep.add("engine", "inconclusive", f"internal error: {type(e).__name__}: {e}"[:1500], nontrivial=False)
+        return rep
+    rep = attempt()
+    if rep.inconclusive and not rep.violations and os.environ.get("VERIF_NO_RETRY") != "1":
+        # Nothing was confirmed, something was not decided. A frequent cause: a small predicate was extracted into a helper function whose
+        # result the kernels treat as arbitrary. Second attempt: such helpers (Boolean / field-less enum result, unknown to every kernel by
+        # name) are followed into their MIR. Its verdict is taken only if it is a clean pass; otherwise the first attempt stands.
+        from . import mirsym
+        mirsym.AUTO_INLINE = True
+        rep2 = attempt()
+        if not rep2.inconclusive and not rep2.violations and mirsym.AUTO_INLINED:
+            rep2.assumptions.append("second attempt: helper functions followed into their MIR instead of being treated as arbitrary: " + ", ".join(sorted(mirsym.AUTO_INLINED)))
+            rep2.extra["first_attempt_inconclusive"] = [str(i)[:200] for i in rep.inconclusive[:10]]
+            rep = rep2
+        else:
+            mirsym.AUTO_INLINE = False
     sys.exit(rep.finish())
 
 
